@@ -69,6 +69,14 @@ def check(case: t.Any, ctx: Ctx) -> None:
         if d is not None:
             ctx.fail('exactly-typed', nd.kind, f"from_data({short(v, 200)}, {nd.render()[:300]}) returned {short(out1[1], 150)}: {d}")
 
+    if how == 'subclassed':
+        # the same through convert() (serialise, then read): the plain value the instance carries, not what its __str__ prints
+        out_v = outcome(lambda: pane.convert(v, T))
+        ctx.evaluated()
+        if out_v[0] == 'ok':
+            d = base_value_error(nd, v, out_v[1])
+            if d is not None:
+                ctx.fail('exactly-typed', f"convert:{nd.kind}", f"convert({short(v, 200)}, {nd.render()[:300]}) returned {short(out_v[1], 150)}: {d}")
     if nd.kind == 'dataclass':
         out_c = outcome(lambda: T.from_data(v))
         judge(ctx, nd, r, out_c, v, 'Cls.from_data')
